@@ -1,7 +1,8 @@
 (* C19 -- boolean checkers (the ok_ functions) and the rows evaluated by the harness:
    [model agrees with the observation; idempotent; alias_preserved; mode_enforced;
     untouched_preserved; dict_roundtrip; twin_same; slots_preserved; envelope_roundtrip;
-    sequence_independent; decode_independent_of_earlier_results] *)
+    sequence_independent; decode_independent_of_earlier_results;
+    bulk_descriptions_keep_normal_form; refusal_leaves_siblings] *)
 From Coq Require Import ZArith List String Bool.
 From RP Require Import Common.Eqb Descr.Types Descr.Model.
 Import ListNotations.
@@ -118,7 +119,7 @@ Record td_obs := mkTdObs {
   o_twx : option descr;                 (* the twin given to the constructor (None: no deprecated name used) *)
   o_tw  : option (perr + descr) }.      (* TaskDescription(from_dict=twin).verify() *)
 
-Definition pad_slots_env : list bool := [true; true; true; true].
+Definition pad_slots_env : list bool := [true; true; true; true; true; true].
 
 Definition c19_td_row (T : table) (x : descr) (o : td_obs) : list bool :=
   [ descr_eqb (construct T x) (o_c o)
@@ -218,7 +219,7 @@ Definition c19_slots_row (os : list sop) (ss : list slot) (obs : list (perr + li
     ok_placement ss obs; true;
     (* the conversions leave their input alone (measured after the outputs were mutated) and
        give the same result when applied to it again *)
-    eqb_list slot_eqb ss input_after && rerun_same; true ].
+    eqb_list slot_eqb ss input_after && rerun_same; true ; true; true ].
 
 (* ---- envelopes ---- *)
 Definition kwargs_eqb : kwargs -> kwargs -> bool := eqb_list (eqb_prod String.eqb atom_eqb).
@@ -247,7 +248,7 @@ Definition c19_env_row (callable : bool) (args : list atom) (kw : option kwargs)
     | inr (_, a, k), inr (a', k', _) => eqb_list atom_eqb a a' && eqb_option kwargs_eqb k k'
     | _, _ => false
     end; true; true; true; true; true; true; true;
-    ok_envelope callable args kw o; true; true ].
+    ok_envelope callable args kw o; true; true ; true; true ].
 
 (* ---- sequences of task creations from one stateful callable ----
    a function value is identified by the state it carries (an integer the callable reports
@@ -284,7 +285,7 @@ Definition c19_envseq_row (decor : bool) (f_dec : Z) (steps : list (step Z)) (ob
                          | _, _ => false
                          end) (transport_seq_id decor f_dec steps) obs;
     true; true; true; true; true; true; true;
-    forallb2 ok_envelope_step steps obs; true; true ].
+    forallb2 ok_envelope_step steps obs; true; true ; true; true ].
 
 (* ---- serialize_obj on callables of every kind ----
    inputs measured by the harness on the callable itself: does dill.dumps(f) succeed (by
@@ -329,7 +330,7 @@ Definition c19_envk_row (val_ok ref_ok pk_ok callable : bool) (args : list atom)
        | _, _ => false
        end;
     true; true; true; true; true; true; true;
-    ok_serialize val_ok ref_ok pk_ok so && ok_envelope_k val_ok ref_ok pk_ok callable args kw o; true; true ].
+    ok_serialize val_ok ref_ok pk_ok so && ok_envelope_k val_ok ref_ok pk_ok callable args kw o; true; true ; true; true ].
 
 (* ---- sequences of descriptions in one process ----
    observed: the final _data of every description of the sequence.  Each must be what the
@@ -348,7 +349,7 @@ Definition c19_dseq_row (pd : bool) (T : table) (ops : list dop) (obs : list (na
   let '(mk, vf) := dseq_funs pd T in
   [ forallb (fun o => eqb_option descr_eqb (slot_get (fst o) (drun mk vf ops [])) (Some (snd o))) obs;
     true; true; true; true; true; true; true; true;
-    ok_independent pd T ops obs; true ].
+    ok_independent pd T ops obs; true ; true; true ].
 
 (* ---- fresh Slot() objects after earlier ones were mutated in place ----
    observed: every Slot() as it was right after its construction *)
@@ -357,7 +358,7 @@ Definition default_slot : slot := mkSlot true (Some 1) (RInts []) (RInts []) 0 0
 Definition c19_slotdefault_row (obs : list slot) : list bool :=
   [ forallb (fun s => slot_eqb s default_slot) obs;
     true; true; true; true; true; true; true; true;
-    forallb (fun s => slot_eqb s default_slot) obs; true ].
+    forallb (fun s => slot_eqb s default_slot) obs; true ; true; true ].
 
 (* ---- the same transport string decoded several times, earlier results mutated in between ----
    observed: what every get_func_attr call returned, looked at right when it returned (the
@@ -374,10 +375,67 @@ Definition ok_decodes (x : dres) (obs : list (dres * bool)) : bool :=
 Definition c19_decseq_row (x : dres) (ops : list rop) (obs : list (dres * bool)) : list bool :=
   [ eqb_list dres_eqb (snd (run_fresh x ops [])) (map fst obs);
     true; true; true; true; true; true; true; true; true;
-    ok_decodes x obs ].
+    ok_decodes x obs ; true; true ].
 
 (* the real worker: the same function string dispatched k times (MPI communicator injected
    into kwargs['comm'] or args[0]); observed per run: did it return the expected value *)
 Definition c19_dispatch_row (obs : list bool) : list bool :=
   [ forallb (fun b => b) obs; true; true; true; true; true; true; true; true; true;
-    forallb (fun b => b) obs ].
+    forallb (fun b => b) obs ; true; true ].
+
+(* ---- TaskManager.submit_tasks on bulks of description objects ----
+   observed per call: the exception kind (or none), the objects whose tasks were handed on,
+   and the _data of EVERY description object of the case after the call *)
+Definition init_store (T : table) (srcs : list descr) : dstore :=
+  combine (seq 0 (List.length srcs)) (map (construct T) srcs).
+
+Definition out_kind (o : sub_outcome) : option perr := match o with SubOk => None | SubErr e _ => Some e end.
+Definition out_slot (o : sub_outcome) : list nat := match o with SubOk => [] | SubErr _ i => [i] end.
+
+(* a description object the caller passed is, after the call, either untouched or the normal
+   form of ITS OWN source -- verify's result with the uid the application chose, or with a
+   generated one if it chose none -- whatever else was in the bulk.  (A description that
+   verify refuses is not judged.) *)
+Definition ok_bulk_nf (T : table) (src o : descr) : bool :=
+  let c := construct T src in
+  match verify T c with
+  | inl _ => true
+  | inr _ =>
+      descr_eqb o c
+      || match uid_str o with
+         | Some u => match verify T (with_uid c u) with inr v => descr_eqb v o | inl _ => false end
+         | None => false
+         end
+  end.
+
+Definition bulk_obs := (option perr * list nat * list descr)%type.
+
+Fixpoint bulk_corr (model : list (sub_outcome * list nat * dstore)) (obs : list bulk_obs) (skip : list nat)
+  : bool :=
+  match model, obs with
+  | [], [] => true
+  | (o, h, st) :: mr, (e, h', snap) :: orr =>
+      let skip' := out_slot o ++ skip in
+      eqb_option perr_eqb (out_kind o) e && eqb_list Nat.eqb h h'
+      && forallb (fun id => existsb (Nat.eqb (fst id)) skip'
+                            || eqb_option descr_eqb (slot_get (fst id) st) (Some (snd id)))
+                 (combine (seq 0 (List.length snap)) snap)
+      && bulk_corr mr orr skip'
+  | _, _ => false
+  end.
+
+(* a refused call: the siblings handled before the refusal are exactly what they are after the
+   same call without the refused element and what follows it (reference run of the real code) *)
+Definition ok_siblings (r : list nat * list descr * list descr) : bool :=
+  let '(pre, snap, ref) := r in
+  forallb (fun i => match nth_error snap i, nth_error ref i with
+                    | Some a, Some b => descr_eqb a b
+                    | _, _ => false
+                    end) pre.
+
+Definition c19_bulk_row (T : table) (srcs : list descr) (calls : list (list nat)) (obs : list bulk_obs)
+  (refs : list (list nat * list descr * list descr)) : list bool :=
+  [ bulk_corr (snd (submit_calls (verify T) calls (mkSub (init_store T srcs) [] 0))) obs [];
+    true; true; true; true; true; true; true; true; true; true;
+    forallb (fun o => forallb2 (ok_bulk_nf T) srcs (snd o)) obs;
+    forallb ok_siblings refs ].
